@@ -43,6 +43,36 @@ def handle (req : Sexp) : Sexp :=
     match decRaw r with
     | some r => encM (fun e => [encExpr e]) (build r)
     | none => errS "protocol" "build"
+  | .list [.atom "refscheck", mt, pr] =>
+    -- HplProperty.type_check_references(msg_types)
+    match decVarTypes mt, decProperty pr with
+    | some mt, some pr => encM (fun _ => []) (refsCheckProperty mt pr)
+    | _, _ => errS "protocol" "refscheck"
+  | .list [.atom "refspred", this, vars, pd] =>
+    -- HplPredicate.type_check_references(this_msg, variables)
+    match decTok this, decVarTypes vars, decPred pd with
+    | some this, some vars, some pd => encM (fun _ => []) (refsCheckPred this vars pd)
+    | _, _, _ => errS "protocol" "refspred"
+  | .list [.atom "leaffields", t] =>
+    match decTok t with
+    | some t => okS ((leafFields t).map (fun p => .list [.str p.1, encTok p.2]))
+    | none => errS "protocol" "leaffields"
+  | .list [.atom "containsname", t, .str n] =>
+    match decTok t with
+    | some t => okS [Sexp.ofBool (containsName t n)]
+    | none => errS "protocol" "containsname"
+  | .list [.atom "gettypeof", t, .str n] =>
+    match decTok t with
+    | some t => encM (fun t' => [encTok t']) (getTypeOf t n)
+    | none => errS "protocol" "gettypeof"
+  | .list [.atom "mkarray", len] =>
+    match len.intOf with
+    | some len => encM (fun _ => []) (mkArray len)
+    | none => errS "protocol" "mkarray"
+  | .list [.atom "mkranged", ty, lo, hi] =>
+    match ty.natOf, decTime lo, decTime hi with
+    | some ty, some lo, some hi => encM (fun _ => []) (mkRanged ty lo hi)
+    | _, _, _ => errS "protocol" "mkranged"
   | .list [.atom "clash", r] =>
     -- does the definite-clash detector (Spec/Clash; sound for `build` by Props/C05) flag this raw term?
     match decRaw r with
